@@ -21,6 +21,8 @@
  *        c<id>  managed probe owned by a Box stored in a (managed) Array of Box
  *        r<id>  root probe (new_root: stays)   f      a managed File opened for writing
  *        g<id>  probe owned by a Box-like probe (its destructor is the real Box_Del; id+500 = owner)
+ *        h<id>  ROOT probe (new_root) owned by a managed Box-like probe (id+500): kept in plain memory,
+ *               released by its owner's destructor through del() on a table-resident root
  *   stdout (one line):  <id>:<fin>,...;F<fclose calls on the tracked stream>;T<threadprobes fin>;<route reached 0/1>
  * Linked with -Wl,--wrap=fclose to count the File's fclose. */
 #include "Cello.h"
@@ -87,6 +89,7 @@ int main(int argc, char** argv) {
     else if (c == 'r') { var x = new_root(XProbe, $I(id), $I(0)); if (nk < 64) keep[nk++] = x; }
     else if (c == 'o') { var x = new(XProbe, $I(id), $I(0)); var b = new(Box, x); if (nk < 64) keep[nk++] = b; }
     else if (c == 'g') { var x = new(XProbe, $I(id), $I(0)); struct XProbe* b = new(XProbe, $I(id + 500), $I(1)); b->val = x; if (nk < 64) keep[nk++] = b; }
+    else if (c == 'h') { var x = new_root(XProbe, $I(id), $I(0)); struct XProbe* b = new(XProbe, $I(id + 500), $I(1)); b->val = x; if (nk < 64) keep[nk++] = b; }
     else if (c == 'c') {
       if (!arr) { arr = new(Array, Box); if (nk < 64) keep[nk++] = arr; }
       var x = new(XProbe, $I(id), $I(0)); push(arr, $(Box, x));
